@@ -50,15 +50,19 @@ def run(pid, tier):
     # binding canaries: corrupt the real observations
     import copy
     cans = []
-    base = next(s for s in steps if s['exp']['op']['name'] == 'insert_last' and len(s['act']['obs']['tourA'].get('acts', [])) >= 2 and s['exp']['op']['on'] == 'A')
-    c = copy.deepcopy(base); c['act']['obs']['tourA']['acts'] = c['act']['obs']['tourA']['acts'][:-1]; cans.append((c, 'TourAsModel'))
-    c = copy.deepcopy(base); c['act']['obs']['tourA']['jobCount'] += 1; cans.append((c, 'TourAsModel'))
-    c = copy.deepcopy(base); c['act']['res'] = 'panic'; cans.append((c, 'ResultAsModel'))
-    baseb = next((s for s in steps if not s['act']['obs']['tourB'].get('none', True) and s['exp']['op']['on'] == 'A' and s['act']['obs']['tourB']['acts']), None)
-    if baseb:
-        c = copy.deepcopy(baseb); c['act']['obs']['tourB']['acts'] = []; cans.append((c, 'OtherTourUntouched'))
-    baser = next(s for s in steps if s['exp']['op']['name'] in ('use_actor', 'get_route') and s['exp']['res'] == 'true' and s['exp']['op']['on'] == 'A')
-    c = copy.deepcopy(baser); c['act']['obs']['regA']['available'] = c['act']['obs']['regA']['available'] + [c['exp']['op']['a']]; cans.append((c, 'RegistryAsModel'))
+    can_skip = False
+    try:
+        base = next(s for s in steps if s['exp']['op']['name'] == 'insert_last' and len(s['act']['obs']['tourA'].get('acts', [])) >= 2 and s['exp']['op']['on'] == 'A')
+        c = copy.deepcopy(base); c['act']['obs']['tourA']['acts'] = c['act']['obs']['tourA']['acts'][:-1]; cans.append((c, 'TourAsModel'))
+        c = copy.deepcopy(base); c['act']['obs']['tourA']['jobCount'] += 1; cans.append((c, 'TourAsModel'))
+        c = copy.deepcopy(base); c['act']['res'] = 'panic'; cans.append((c, 'ResultAsModel'))
+        baseb = next((s for s in steps if not s['act']['obs']['tourB'].get('none', True) and s['exp']['op']['on'] == 'A' and s['act']['obs']['tourB']['acts']), None)
+        if baseb:
+            c = copy.deepcopy(baseb); c['act']['obs']['tourB']['acts'] = []; cans.append((c, 'OtherTourUntouched'))
+        baser = next(s for s in steps if s['exp']['op']['name'] in ('use_actor', 'get_route') and s['exp']['res'] == 'true' and s['exp']['op']['on'] == 'A')
+        c = copy.deepcopy(baser); c['act']['obs']['regA']['available'] = c['act']['obs']['regA']['available'] + [c['exp']['op']['a']]; cans.append((c, 'RegistryAsModel'))
+    except StopIteration:
+        can_skip = True          # no record to corrupt (the code under test answered nothing of that kind): judged below
     fj = os.path.join(d, 'steps.ndjson')
     common.write_ndjson(fj, steps + [c[0] for c in cans])
     res = common.tlc('JudgeContainers', env={'STEPS': fj}, workers=1, name=pid + '-judge', timeout=3000, xmx='8g')
@@ -80,6 +84,8 @@ def run(pid, tier):
             s['h'], s['step'], json.dumps(s['exp']['op']), s['exp']['res'], json.dumps(s['exp']['obs'])[:200], s['act']['res'], json.dumps(s['act']['obs'])[:200]),
             {'closed': hs[s['h'] - 1]['closed'], 'history': hs[s['h'] - 1]['hist'][:s['step']], 'actual': s['act']})
     rc = verdict.finish()
+    if can_skip and rc == 0:
+        raise ToolError('no base record for the vacuity canaries and no violation reported')
     ops = collections.Counter(s['exp']['op']['name'] for s in steps)
     cov = {'states': mc.distinct + res.distinct, 'transitions': mc.generated + res.generated, 'traces_validated_against_impl': len(hs),
            'evaluations': len(steps), 'distinct_nontrivial': len({common.digest(h) for h in hs}),
